@@ -6,6 +6,9 @@ import (
 	"fmt"
 	"math"
 	"math/rand"
+	"regexp"
+	"strconv"
+	"strings"
 	"sync/atomic"
 
 	"github.com/yaricom/goNEAT/v4/neat"
@@ -67,6 +70,16 @@ type EvoScenario struct {
 	// signedFitness (C17): the deterministic fitness function is negative for most organisms (an error measure with the sign
 	// turned, as in "0.1 - |error|")
 	signedFitness bool
+	// RepeatIds > 0 (constructor ReadPopulation): the genome ids in the file are taken modulo this number, as in a seed file
+	// put together from the stores of several runs
+	RepeatIds int
+	// BySpeciesFactor > 0 (constructor ReadPopulation): the file is the dump by species (WriteBySpecies, the format the examples
+	// store) of a population that was spawned and speciated under a threshold this many times the one it is read under
+	BySpeciesFactor float64
+	// AbortAt > 0: the turnover of that generation is first attempted under a context that is cancelled while the species
+	// reproduce (the attempt fails, its offspring are dropped), and then made again; a retry that fails ends the scenario quietly
+	// (what an aborted turnover leaves behind is no population any property speaks about - unless everything survives)
+	AbortAt int
 	// executor is the executor object of the run (created by runScenario unless the caller hands one over)
 	executor genetics.PopulationEpochExecutor
 	// hugePopulation (C17): thousands of organisms
@@ -110,6 +123,15 @@ func (sc *EvoScenario) brief() map[string]interface{} {
 	if sc.RestoreAt > 0 {
 		m["restore_at"] = sc.RestoreAt
 	}
+	if sc.RepeatIds > 0 {
+		m["genome_ids_in_the_file_taken_modulo"] = sc.RepeatIds
+	}
+	if sc.BySpeciesFactor > 0 {
+		m["read_from_a_dump_by_species_made_under_threshold_times"] = sc.BySpeciesFactor
+	}
+	if sc.AbortAt > 0 {
+		m["turnover_aborted_and_made_again_at"] = sc.AbortAt
+	}
 	if sc.Ctor == ctorRandom {
 		m["random"] = fmt.Sprintf("in=%d out=%d hidden<%d recur=%v p=%.2f", sc.RandIn, sc.RandOut, sc.RandHidden, sc.RandRecur, sc.RandLinkProb)
 	}
@@ -136,6 +158,12 @@ func genScenario(r *rand.Rand, allowParallel bool) *EvoScenario {
 	default:
 		sc.Ctor = ctorRead
 	}
+	if sc.Ctor == ctorRead && r.Intn(2) == 0 {
+		sc.RepeatIds = pick(r, 1, 2, 5)
+	}
+	if sc.Ctor == ctorRead && r.Intn(3) == 0 {
+		sc.BySpeciesFactor = pick(r, 0.2, 0.5, 1.0, 3.0, 10.0)
+	}
 	sc.Start, sc.StartSrc = startGenome(r, sc.Opts)
 	sc.RandIn, sc.RandOut, sc.RandHidden = 2+r.Intn(3), 1+r.Intn(2), 1+r.Intn(5)
 	sc.RandRecur = r.Intn(2) == 0
@@ -149,6 +177,8 @@ func genScenario(r *rand.Rand, allowParallel bool) *EvoScenario {
 	return sc
 }
 
+var genomeIdLine = regexp.MustCompile(`(?m)^(genomestart|genomeend) \d+`)
+
 func (sc *EvoScenario) construct() (*genetics.Population, error) {
 	switch sc.Ctor {
 	case ctorSpawn:
@@ -157,13 +187,37 @@ func (sc *EvoScenario) construct() (*genetics.Population, error) {
 		return genetics.NewPopulationRandom(sc.RandIn, sc.RandOut, sc.RandHidden, sc.RandRecur, sc.RandLinkProb, sc.Opts)
 	default:
 		// write a spawned population and read it back: the counters are initialised by the reader
-		pop, err := genetics.NewPopulation(sc.Start, sc.Opts)
+		wopts := sc.Opts
+		if sc.BySpeciesFactor > 0 {
+			tuned := *sc.Opts
+			tuned.CompatThreshold *= sc.BySpeciesFactor
+			wopts = &tuned
+		}
+		hook := genetics.VerifHooks.Speciated
+		if sc.BySpeciesFactor > 0 {
+			genetics.VerifHooks.Speciated = nil // (the population that is written was speciated under options of its own; it is not the one under observation)
+		}
+		pop, err := genetics.NewPopulation(sc.Start, wopts)
+		genetics.VerifHooks.Speciated = hook
 		if err != nil {
 			return nil, err
 		}
 		var buf bytes.Buffer
-		if err = pop.Write(&buf); err != nil {
+		if sc.BySpeciesFactor > 0 {
+			err = pop.WriteBySpecies(&buf)
+		} else {
+			err = pop.Write(&buf)
+		}
+		if err != nil {
 			return nil, err
+		}
+		if sc.RepeatIds > 0 {
+			text := genomeIdLine.ReplaceAllStringFunc(buf.String(), func(m string) string {
+				f := strings.Fields(m)
+				id, _ := strconv.Atoi(f[1])
+				return fmt.Sprintf("%s %d", f[0], id%sc.RepeatIds)
+			})
+			return genetics.ReadPopulation(strings.NewReader(text), sc.Opts)
 		}
 		return genetics.ReadPopulation(&buf, sc.Opts)
 	}
@@ -314,6 +368,31 @@ func runScenario(c *Ctx, sc *EvoScenario, mon EvoMonitor) {
 			}
 			c.Count("scenarios.options_object_switched", 1)
 		}
+		if sc.AbortAt > 0 && gen == sc.AbortAt {
+			assignFitness(c.G, sc.Fitness, gen, pop)
+			cctx, cancel := context.WithCancel(ctx)
+			prevHook := genetics.VerifHooks.ReproduceStart
+			var started int32
+			after := int32(1 + c.G.Intn(3))
+			genetics.VerifHooks.ReproduceStart = func(s *genetics.Species, p *genetics.Population, generation int) {
+				if prevHook != nil {
+					prevHook(s, p, generation)
+				}
+				if atomic.AddInt32(&started, 1) == after {
+					cancel()
+				}
+			}
+			aerr := ex.NextEpoch(cctx, gen, pop)
+			cancel()
+			genetics.VerifHooks.ReproduceStart = prevHook
+			if aerr != nil {
+				c.Count("epochs.aborted_by_cancellation_then_made_again", 1)
+			} else {
+				c.Count("epochs.cancellation_came_too_late", 1)
+				mon.BeforeEpoch(c, sc, gen, pop) // (the monitors did not see the state before this turnover: end the scenario)
+				return
+			}
+		}
 		assignFitness(c.G, sc.Fitness, gen, pop)
 		var preSnaps []*SnapGenome
 		if sc.Ctor == ctorRandom {
@@ -325,6 +404,10 @@ func runScenario(c *Ctx, sc *EvoScenario, mon EvoMonitor) {
 		err = ex.NextEpoch(ctx, gen, pop)
 		c.Eval(1)
 		if err == nil && sc.Ctor == ctorRandom && geneLessChildSurvived(c, sc, gen, pop, preSnaps) {
+			return
+		}
+		if err != nil && sc.AbortAt > 0 && gen == sc.AbortAt {
+			c.Count("epochs.retry_after_abort_failed", 1)
 			return
 		}
 		if !mon.AfterEpoch(c, sc, gen, pop, err) {
